@@ -121,3 +121,11 @@ Qed.
 Lemma forallb_In : forall {A} (f : A -> bool) l x, forallb f l = true -> In x l -> f x = true.
 Proof. intros A f l x H Hin. rewrite forallb_forall in H. apply H. exact Hin. Qed.
 
+
+Lemma NoDup_app_disjoint : forall {A} (l1 l2 : list A), NoDup l1 -> NoDup l2 ->
+  (forall x, In x l1 -> In x l2 -> False) -> NoDup (l1 ++ l2).
+Proof.
+  induction l1 as [|a l1 IH]; intros l2 H1 H2 Hd; [exact H2|]. inversion H1; subst. cbn [app]. constructor.
+  - intro Hin. apply in_app_or in Hin. destruct Hin as [Hin|Hin]; [contradiction|]. exact (Hd a (or_introl eq_refl) Hin).
+  - apply IH; [assumption | assumption|]. intros x Hx1 Hx2. exact (Hd x (or_intror Hx1) Hx2).
+Qed.
